@@ -9,6 +9,16 @@ package nsx
 
 //vc:func (*State).sendRequest
 //vc:  requires[C11] !isCompareRun || method == "GET"
+//vc:  requires[C09] @noChangeAfterFailure !devFailure || method == "GET"
+//vc:  set devFailure = devFailure || result1 != nil
+//vc:  set accepted = ite(result1 == nil, accepted + 1, accepted)
+//vc:  ensures[C09] @errorStatusIsError result1 == nil ==> lastHTTPStatus == 200
+//vc:  ensures[C09] devFailure == (old(devFailure) || result1 != nil)
+//vc:  ensures[C09] accepted == ite(result1 == nil, old(accepted) + 1, old(accepted))
 
 //vc:func (*State).ApplyCommands
 //vc:  requires[C11] !isCompareRun
+//vc:  requires[C09] !devFailure
+//vc:  invariant[C09] 1 "for _, c := range s.changes" !devFailure && accepted == old(accepted) + rangeindex + 1 && -1 <= rangeindex && rangeindex < len(s.changes) && len(s.changes) == old(len(s.changes))
+//vc:  set changesConfirmed = result == nil && !devFailure && accepted == old(accepted) + len(s.changes)
+//vc:  ensures[C09] @nilOnlyIfAllAccepted result == nil ==> changesConfirmed
